@@ -174,8 +174,8 @@ func matrixMutationHistories(r *core.Run, zeroOpen bool, judge func(c alnCase, r
 		params = [][4]int{{1, -1, -1, -1}, {3, -3, -1, -2}, {2, 0, -2, -3}, {1, -1, 0, -1}}
 	}
 	pairs := [][2]string{{"ABBA", "ABA"}, {"AAB", "BAA"}, {"ABCAB*20", "ABCCB*19+A"}}
-	r.Bound("matrix-mutation", fmt.Sprintf("one matrix map rewritten in place between calls: every sequence of 2..3 parameter sets from %v x {Global, Local} per call x %d sequence pairs", params, len(pairs)))
-	core.Clause(r, "matrix-mutation-histories", core.Opts{Rule: "call histories in which the SAME map object carries different scores from call to call (keys and length unchanged); each call is judged against the reference for the scores it was given; non-trivial = all"},
+	r.Bound(mutClauseName, fmt.Sprintf("one matrix map rewritten in place between calls: every sequence of 2..3 parameter sets from %v x {Global, Local} per call x %d sequence pairs", params, len(pairs)))
+	core.Clause(r, mutClauseName, core.Opts{Rule: "call histories in which the SAME map object carries different scores from call to call (keys and length unchanged); each call is judged against the reference for the scores it was given; non-trivial = all"},
 		func(emit func(alnMutHist) bool) {
 			for _, p := range pairs {
 				for n := 2; n <= 3; n++ {
@@ -238,3 +238,14 @@ func matrixMutationHistories(r *core.Run, zeroOpen bool, judge func(c alnCase, r
 			return core.Outcome{Class: fmt.Sprint("calls=", len(h.Params)), Nontrivial: true, Evals: len(h.Params)}
 		})
 }
+
+// matrixMutationHistories2 repeats the zero-gap-open menu under a second clause name for C08.
+func matrixMutationHistories2(r *core.Run) {
+	// the clause registry is keyed by name; a second call needs its own name
+	saved := mutClauseName
+	mutClauseName = "matrix-mutation-histories-zero-open"
+	matrixMutationHistories(r, true, judgeC08)
+	mutClauseName = saved
+}
+
+var mutClauseName = "matrix-mutation-histories"
